@@ -33,6 +33,7 @@ PROP = dict(
         "Comdex.C18.lend_reward_interaction_restarts_clock", "Comdex.C18.stable_rebalance_spec",
     ],
     harness_tests=["TestC18"],
+    coverage_files=["x/locker/keeper/msg_server.go", "x/asset/keeper/pairs_vault.go"],
     trusted_base=[KERNEL_TB, HARNESS_TB, DEC_TB,
                   "Model/LendRates.lean is hand-written from x/lend/keeper/maths.go:9-90 and iter.go:186-265; tied on every run by calling "
                   "the real GetUtilisationRatioByPoolIDAndAssetID / GetBorrowAPRByAssetID / GetLendAPRByAssetIDAndPoolID on a real store "
